@@ -118,7 +118,8 @@ void add_args() {
 // ---- the same packs through the vectors' emplace_back / emplace ---------------------------------------------------------
 // Scenario = start state (elements 10, 11, ... already inside; spare capacity or none) x where x argument pack.  The
 // amc container plays the amc world, std::vector the reference world.  Observed: the new element (copied into the
-// destination slot), the size (ret_dst) and the element next to it (ret_src), which must not change.
+// destination slot), the size (reported as ret_dst) and the value of the element next to it (reported as ret_src,
+// "returned source iterator" in a failure message), which must not change.
 enum VecShape {
   VE_BACK_EMPTY, VE_BACK_ROOM, VE_BACK_FULL, VE_BACK_1ARG, VE_BACK_0ARG, VE_BACK_3ARG, VE_BACK_LVALUES,
   VE_FRONT_ROOM, VE_FRONT_FULL, VE_MID_ROOM, VE_END_FULL, VE_COUNT
@@ -137,8 +138,8 @@ const void *vec_cell(int shape, T *d, Obs &o) {
   const bool room = shape == VE_BACK_ROOM || shape == VE_BACK_1ARG || shape == VE_BACK_3ARG || shape == VE_FRONT_ROOM ||
                     shape == VE_MID_ROOM;
   if (!empty) {
-    v.emplace_back(10);
-    v.emplace_back(11);
+    v.push_back(T(10));  // not emplace: the start state must not depend on what is under test
+    v.push_back(T(11));
     if (room) v.reserve(4);
     else v.shrink_to_fit();  // dynamic vectors: capacity == size, the next insertion has to grow
   }
